@@ -13,7 +13,7 @@ variables of the packages this property's code lives in, the functions (other th
 assign to them or call methods on them, and the fields of the property's struct types. The model is
 a pure function of the arguments and of these fields; a new variable, writer or field is state the
 model does not know of. -/
-def stateC10 : List (String × String) := [("globals:stats", "ErrMismatchedSamples ErrSampleSize ErrSamplesEqual ErrZeroVariance MannWhitneyExactLimit MannWhitneyTiesExactLimit StdNormal _KDEBoundaryMethod_index _KDEKernel_index _LocationHypothesis_index inf nan quantileCIApproxThreshold"), ("globalwrites:stats", "MannWhitneyUTest:StdNormal.CDF"), ("fields:stats.Sample", "Xs:[]float64 Weights:[]float64 Sorted:bool"), ("fields:stats.sampleSorter", "xs:[]float64 weights:[]float64")]
+def stateC10 : List (String × String) := [("globals:stats", "ErrMismatchedSamples ErrSampleSize ErrSamplesEqual ErrZeroVariance MannWhitneyExactLimit MannWhitneyTiesExactLimit StdNormal _KDEBoundaryMethod_index _KDEKernel_index _LocationHypothesis_index inf nan quantileCIApproxThreshold"), ("globalwrites:stats", "MannWhitneyUTest:StdNormal.CDF"), ("fields:stats.Sample", "Xs:[]float64 Weights:[]float64 Sorted:bool"), ("fields:stats.sampleSorter", "xs:[]float64 weights:[]float64"), ("funcs:stats", "n=117 fnv64a=80a50d6f629bd21b")]
 
 /-- the source has exactly the package-level variables, writers and struct fields the model accounts for -/
 theorem state_C10 : holdsAll stateC10 = true := by decide +kernel
